@@ -73,6 +73,9 @@ func New(t testing.TB, property string) *Report {
 	return r
 }
 
+// T returns the *testing.T the report was created with.
+func (r *Report) T() *testing.T { return r.t.(*testing.T) }
+
 func (r *Report) Thorough() bool { return r.Tier == "thorough" }
 
 // N picks the case count of the tier.
